@@ -57,6 +57,7 @@ package r2
 //@   requires vcRectOK(r) && vcProbe(px, py) && vcProbe(p.X, p.Y)
 //@   ensures [added] result.ContainsPoint(p)
 //@   ensures [kept] r.ContainsPoint(Point{px, py}) ==> result.ContainsPoint(Point{px, py})
+//@   ensures [empty-stays-empty] r.IsEmpty() ==> result.IsEmpty()
 //@   ensures [valid] vcRectOK(result)
 
 //@ func (r Rect) ClampPoint(p Point) Point
